@@ -20,8 +20,13 @@ from memdoc import memdoc
 NAMES = ["a.png", "b.png"]
 
 
+ROOT_PART = "layout-cache"   # a part stored at the root of the package (as office suites write)
+
+
 def Doc():
-    return memdoc()
+    doc = memdoc({ROOT_PART: b"cache"})
+    doc.manifest.add_full_path(ROOT_PART, "application/binary")
+    return doc
 
 
 def consistent(doc):
@@ -55,6 +60,9 @@ def step(doc, op, i):
     elif op == 2:
         doc.manifest.add_full_path(path, "image/png")
         doc.container.set_part(path, b"data")
+    elif op == 4:
+        if ROOT_PART in doc.container.present():
+            doc.del_part(ROOT_PART)  # a part at the root of the package: its "folder" is the package itself
     else:
         if doc.manifest.get_media_type(path) is not None:
             doc.manifest.set_media_type(path, "image/x")
@@ -68,7 +76,7 @@ OP1 = int(os.environ.get("VERIF_OP1", "0"))  # first operation (concrete per pro
 
 def manifest_history(op2: int, i2: int, op3: int, i3: int) -> bool:
     """
-    pre: 0 <= op2 <= 3 and 0 <= op3 <= 3 and 0 <= i2 <= 1 and 0 <= i3 <= 1
+    pre: 0 <= op2 <= 4 and 0 <= op3 <= 4 and 0 <= i2 <= 1 and 0 <= i3 <= 1
     post: _
     """
     doc = Doc()
@@ -85,7 +93,7 @@ OP2 = int(os.environ.get("VERIF_OP2", "0"))  # thorough tier: second operation c
 
 def manifest_history3(i2: int, op3: int, i3: int) -> bool:
     """
-    pre: 0 <= op3 <= 3 and 0 <= i2 <= 1 and 0 <= i3 <= 1
+    pre: 0 <= op3 <= 4 and 0 <= i2 <= 1 and 0 <= i3 <= 1
     post: _
     """
     # same as manifest_history with the second operation kind concrete per process too (16 processes)
@@ -103,7 +111,7 @@ def _history3(op2, i2, op3, i3):
 
 def manifest_history4(i2: int, op3: int, i3: int, op4: int, i4: int) -> bool:
     """
-    pre: 0 <= op3 <= 3 and 0 <= op4 <= 3 and 0 <= i2 <= 1 and 0 <= i3 <= 1 and 0 <= i4 <= 1
+    pre: 0 <= op3 <= 4 and 0 <= op4 <= 4 and 0 <= i2 <= 1 and 0 <= i3 <= 1 and 0 <= i4 <= 1
     post: _
     """
     # four operations (the first two kinds concrete per process, the rest and all addressed names symbolic)
